@@ -97,9 +97,9 @@ def main(tier, seed, replay=None):
                 pass
     for i in range(6 if tier == "quick" else 40):
         s, _ = specgen.gen_spec(seed * 77 + i)
-        # avoid the recorded crash class (recursive inline unions with helpers) — it is C12's finding
+        # avoid the recorded crash classes (recursive inline unions with helpers, cyclic allOf) — they are C12's findings
         import c12
-        if c12.has_recursive_inline_union(s):
+        if c12.has_recursive_inline_union(s) or c12.has_allof_cycle(s) or c12.has_recursive_array_alias(s):
             continue
         corpus.append((f"gen{i}", s))
     if replay:
